@@ -322,11 +322,11 @@ def _rat(s):
     return "((%s : Rat) / %s)" % (n, d) if d != "1" else "(%s : Rat)" % n
 
 
-def lean_tv(chk, binary, tag, index, n=4, idx_deps=(), param_stubs=None):
+def lean_tv(chk, binary, tag, index, n=4, idx_deps=(), param_stubs=None, extra_args=()):
     """param_stubs: {parameter-function name: Lean term at Rat} for entries whose opaque callees are PARAMETERS of the emitted
     definition (C07 gj44...); they follow the EXTRA_ORDER arguments in name order, as in the emitter.  The binary must evaluate the
     same stubs at exact fractions (opaque.h Native::q), otherwise it prints RATSKIP for those entries as before."""
-    cmd = [binary, "rattv", str(chk.seed), str(n)]
+    cmd = [binary, "rattv", str(chk.seed), str(n)] + list(extra_args)      # extra_args: e.g. ["--den", "4"] (main.h rattv)
     for d in idx_deps:
         cmd += ["--idx", d]
     rc, out = lib.sh(cmd, timeout=900)
